@@ -249,9 +249,9 @@ theorem fresh_inv3 (load : Bool) (opts : Opts) : Inv3 (openDB {} false load opts
 theorem defragReady_of_inv3 (db : DB) (h : Inv3 db) (hs : SizeOK db) (hseq : db.dataSeq + 1 < 2^32)
     (hsmall : (snapBytes (u32 (db.verSeq + 1)) (layout (u32 (db.dataSeq + 1)) 4 db.index)).length ≤ bufSize) :
     DefragReady db := by
-  obtain ⟨E, _, hE⟩ := h.inv.logst
+  obtain ⟨E, hEf, hE⟩ := h.inv.logst
   refine ⟨h.inv.cached, ⟨h.inv.cached.2, h.inv.wf, h.inv.nodup, hs.2⟩, h.i2.free, ⟨h.i2.other, E, hE⟩, h.inv.verlt,
-    fun kr hkr => ⟨h.inv.dflags kr hkr, h.inv.dreads kr hkr⟩, ?_, hsmall⟩
+    fun kr hkr => ⟨h.inv.dflags kr hkr, h.inv.dreads kr hkr⟩, ?_, ⟨E, hEf, hE⟩, h.inv.ver, hsmall⟩
   intro kr hkr
   have := h.i2.seqs kr hkr
   have hu : u32 (db.dataSeq + 1) = db.dataSeq + 1 := Nat.mod_eq_of_lt hseq
